@@ -162,10 +162,10 @@ func (r *vRevs) CurrentRevision(context.Context) (*migrate.Revision, error) {
 	return revs[len(revs)-1], nil
 }
 
-// Migrate creates the revision table when missing.
+// Migrate creates the revision table when missing (not a counted store event:
+// a crash before the first event is equivalent).
 func (r *vRevs) Migrate(context.Context) error {
-	_, dead := r.w.step()
-	if dead {
+	if r.w.crashed {
 		return errVerifCrash
 	}
 	r.w.state(r.inTx).revTable = true
